@@ -277,6 +277,9 @@ type Block struct {
 	Txs    []*TxGen
 	Dt     time.Duration // 0 = 3 s
 	Powers []int64       // voting powers of the three validators in the block's last commit (nil = 100,1,99)
+	// Sims are executed with the application's Simulate (the gRPC simulation path: runTx in simulate mode on a
+	// discarded branch) before the block is finalized.  They must not influence anything.
+	Sims []*TxGen
 }
 
 func signTx(app *band.BandApp, g *TxGen, info map[string]any, seqBump map[string]uint64) ([]byte, error) {
@@ -328,6 +331,16 @@ func runPath(base *Base, blocks []Block, dev Deviation, record bool, pre func(ap
 			dt = 3 * time.Second
 		}
 		t = t.Add(dt)
+		for _, g := range blk.Sims {
+			bz, err := signTx(app, g, base.Info, map[string]uint64{})
+			if err != nil {
+				continue
+			}
+			func() {
+				defer func() { _ = recover() }() // a panic inside a simulation is answered with an error by the RPC layer
+				_, _, _ = app.Simulate(bz)
+			}()
+		}
 		var txs [][]byte
 		bump := map[string]uint64{}
 		for _, g := range blk.Txs {
